@@ -77,6 +77,9 @@ CHECKS = {
                 text="Every generated function goes through the real AST2SCFG → restructure → SCFG2AST. The pipeline may raise NotImplementedError and nothing else; the regenerated source must compile; original and regenerated function are abstracted and compared by the Lean certificate checker (equal traces for ALL decision sequences, Scfg.C08.pySim_sound) and executed natively by CPython on every decision sequence up to depth 7. "
                      "Differences are classified semantically against the variant semantics of the known front-end deviations; crashes by the precondition they need in the front end's own CFG.", ref="§7 C07",
                 note="As C08. Arguments are symbolic (oracle values), so 'for every argument tuple' is covered up to the oracle's adversarial truthiness/iteration decisions; exceptions raised by atoms are not modelled."),
+    "C10": dict(cat="translation_validation", tech="Lean 4: multiset census decider with soundness theorem (census_sound) on tags collected by object identity from the restructured graph and from the generated tree; compile and hygiene of the unparsed text; two routes (source pipeline, arbitrary restructured closed CFGs with AST payloads)",
+                text="For every accepted function and for every restructured closed CFG with synthetic AST payloads, the statements, tests and control-variable assignments of the graph and those present in the generated tree are collected by object identity and compared by the Lean predicate sameMultiset (Scfg.C10.census_sound: equal multiplicity of every tag — nothing dropped, duplicated or foreign); the unparsed text must compile and bind no new name outside the reserved __scfg_…__ namespace.", ref="§7 C10",
+                note="Trusted: Lean kernel + standard axioms; the tag collection in harness/props/c10.py; ast.unparse/compile. No Lean model of the code generator yet (the conditional theorem codegen_census of the design is not proved); the quantifier over graphs/programs is by enumeration."),
 }
 
 NOT_YET = {}
